@@ -1411,13 +1411,13 @@ fn generate_audit(w: &mut dyn Write, rng: &mut Rng, masks: &[u8], thorough: bool
     }
     // ---- W. the 16-bit chunk counters (payload nonce, sealed-length nonce) up to and across 65535 -> 0: 65534 chunks are written
     //         (R) / written by the peer and read (L, M), then the next ones are compared byte for byte.  Without masking and
-    //         padding only (the model's SHAKE stream costs quadratic time); thorough: both ciphers and both roles. ----
+    //         padding only (the model's SHAKE stream costs quadratic time; each such case costs the model minutes, so thorough has four of them). ----
     {
-        let combos: Vec<(u8, u8, &str)> = if thorough { vec![(1, 3, "client"), (1, 4, "server"), (17, 3, "server"), (17, 4, "client"), (16, 3, "client")] } else { vec![(17, 3 + (rng.below(2) as u8), if rng.chance(1, 2) { "client" } else { "server" })] };
+        let combos: Vec<(u8, u8, &str)> = if thorough { vec![(1, 3, "client"), (17, 4, "server"), (16, 3, "client")] } else { vec![(17, 3 + (rng.below(2) as u8), if rng.chance(1, 2) { "client" } else { "server" })] };
         for (opt, sec, role) in combos {
             let sess = rng.bytes(33);
             body(w, opt, sec, role, &sess, format!("R65533,{};E{};E{};E{};E{}", hex(&rng.bytes(1)), hex(&rng.bytes(2)), hex(&rng.bytes(1)), hex(&rng.bytes(3)), hex(&rng.bytes(2))), "@-".into());
-            if thorough {
+            if thorough && opt == 1 {
                 body(w, opt, sec, role, &sess, format!("L65533,{};L5,{};M3,{}", hex(&rng.bytes(1)), hex(&rng.bytes(2)), hex(&rng.bytes(4))), "@-".into());
             }
         }
